@@ -35,7 +35,10 @@ class ScriptedSocket:
         if not self.chunks:
             self.io._running.clear()
             raise socket.timeout('no more data')
-        return self.chunks.pop(0)
+        c = self.chunks.pop(0)
+        if c is None:
+            raise socket.timeout('the wire is quiet for a moment')      # a read that times out: nothing arrived
+        return c
 
 
 class ReadyPoller:
@@ -121,7 +124,7 @@ def run_reopen_case(rep, rng, frsA, rawsA, frsB, rawsB):
     for chunk, res, mark in zip(chunksB, residuals[readsA:], marks[readsA:]):
         out = [show_dispatched(c, f) for c, f in log[prev:mark]]
         prev = mark
-        lines.append('c02.feed %s' % wire.hexs(chunk))
+        lines.append('c02.feed %s' % wire.hexs(chunk or b''))
         expect.append('out=%s buf=%s' % (','.join(out) if out else '-', wire.hexs(res)))
     return lines, expect
 
@@ -152,7 +155,7 @@ def run_case(rep, frs, raws, chunks, label, truncated=0):
     """One stream x one chunking: real run, monitor, and the lines for the Lean driver."""
     data = b''.join(raws)
     sent = data[:len(data) - truncated] if truncated else data
-    assert b''.join(chunks) == sent
+    assert b''.join(c for c in chunks if c is not None) == sent          # None = a read that timed out
     channels = sorted({ch for ch, _ in frs if ch})
     conn, log, residuals, marks = real_feed(chunks, channels)
     # ---- monitor (independent oracle): own frame splitter on what was sent ---------------------
@@ -160,13 +163,13 @@ def run_case(rep, frs, raws, chunks, label, truncated=0):
     got = [frame_key(c, f) for c, f in log]
     want = [raw for (_, _, _, raw) in whole]
     final_res = residuals[-1] if residuals else b''
-    replay = {'frames_hex': [r.hex() for r in raws], 'chunks_hex': [c.hex() for c in chunks], 'truncated': truncated}
+    replay = {'frames_hex': [r.hex() for r in raws], 'chunks_hex': [None if c is None else c.hex() for c in chunks], 'truncated': truncated}
     if got != want:
         first_bad = next((i for i, (g, w) in enumerate(zip(got, want)) if g != w), min(len(got), len(want)))
         lost_kind = whole[first_bad][0] if first_bad < len(whole) else -1
         # did a read boundary fall exactly 7 bytes into a heartbeat at or before the first lost frame?
         starts = [0] + list(itertools.accumulate(len(w[3]) for w in whole))
-        bounds = set(itertools.accumulate(len(c) for c in chunks[:-1]))
+        bounds = set(itertools.accumulate(len(c or b'') for c in chunks[:-1]))
         cutpos = None
         for i in range(min(first_bad + 1, len(whole))):
             if whole[i][0] == 8 and starts[i] + 7 in bounds:
@@ -337,12 +340,12 @@ def check(rep):
 
     def add(frs, raws, chunks, label, truncated=0):
         data = b''.join(raws)
-        bounds = tuple(itertools.accumulate(len(c) for c in chunks))
+        bounds = tuple(itertools.accumulate(len(c or b'') for c in chunks))
         fb = set(itertools.accumulate(len(r) for r in raws))
         nontrivial = any(b not in fb for b in bounds[:-1]) or truncated
         rep.case((data, bounds, truncated), nontrivial,
                  sample={'frames': [wire.show(wire.frame_type(f), c, b'')[:-2] for c, f in frs],
-                         'chunk_sizes': [len(c) for c in chunks][:12], 'kind': label})
+                         'chunk_sizes': [len(c or b'') for c in chunks][:12], 'kind': label})
         rep.count('chunking', label)
         for c, f in frs:
             rep.count('frame_type', wire.frame_type(f))
@@ -351,7 +354,7 @@ def check(rep):
             return          # judged by the monitor only in the quick tier (the model is slow on 300 kB byte lists)
         lines.extend(ls)
         expect.extend(ex)
-        meta.extend([(label, [r.hex() for r in raws], [c.hex() for c in chunks])] * len(ls))
+        meta.extend([(label, [r.hex() for r in raws], [None if c is None else c.hex() for c in chunks])] * len(ls))
 
     # -- corpus first ----------------------------------------------------------------------------
     for path in sorted((common.CORPUS / 'C02').glob('*.json')):
@@ -416,7 +419,11 @@ def check(rep):
             frs, raws = frs + f2, raws + r2
         data = b''.join(raws)
         if i % 2 == 0:
-            chunks = [data[k:k + 131072] for k in range(0, len(data), 131072)]
+            chunks = []
+            for k in range(0, len(data), 131072):
+                chunks.append(data[k:k + 131072])
+                if rng.random() < 0.7:
+                    chunks.append(None)          # the wire goes quiet right after a completely filled read
             add(frs, raws, chunks, 'bulk-filled-reads')
         else:
             k = rng.randint(1, 9)
@@ -464,7 +471,7 @@ def replay(data):
         print('VIOLATION reproduced' if bad else 'property holds on this input')
         return 1 if bad else 0
     raws = [bytes.fromhex(h) for h in r['frames_hex']]
-    chunks = [bytes.fromhex(h) for h in r['chunks_hex']]
+    chunks = [None if h is None else bytes.fromhex(h) for h in r['chunks_hex']]
     frs = [wire.decode(x) for x in raws]
     if r.get('kind') == 'reopen':
         import os
